@@ -3,6 +3,7 @@
 application answers from its notify callback (in its own simulated thread, like the polling loop of the tests)."""
 import scen, stack as S, vts
 
+C2_ADDR = 0xFA
 C_ADDR, S_ADDR, X_ADDR = 0xF9, 0xD4, 0xA7
 
 
@@ -33,6 +34,14 @@ def runner(sc):
             mc.set_seed_key_algorithm(key_fn if not sc.get('client_wrong_key') else (lambda s: (key_fn(s) + 1) & 0xFFFF))
             ms.set_seed_key_algorithm(key_fn)
             ms.set_seed_generator(lambda: next(seeds))
+        mc2 = None
+        if sc.get('intruder', {}).get('mode') == 'second-ca':
+            # the second requester is another controller application on the CLIENT's ECU, with a MemoryAccess of its own
+            cca2 = cl.add_ca(0x1112, C2_ADDR, True)
+            mc2 = j1939.MemoryAccess(cca2)
+            if sc.get('seedkey'):
+                mc2.set_seed_key_algorithm(key_fn)
+        res.second = []
         opi = {'i': -1}
 
         def cur():
@@ -99,7 +108,7 @@ def runner(sc):
             fr = (inj['id'], True, list(inj['data']), False, {})
             sim.schedule(inj['t'], 'deliver', (inj['to'], fr, 'listener'))
         if sc.get('intruder'):
-            install_intruder(sim, sc['intruder'], res)
+            install_intruder(sim, sc['intruder'], res, mc2)
         sim.run_until(sc['horizon'])
         res.trace = list(sim.trace)
         res.job = [cl.job_state(), sv.job_state()]
@@ -113,7 +122,7 @@ def runner(sc):
     return res
 
 
-def install_intruder(sim, spec, res):
+def install_intruder(sim, spec, res, mc2=None):
     """inject DM14 frames from another source (or from the client's address with another pointer) after the n-th bus frame"""
     import refpeer as R
     state = {'n': 0, 'done': 0}
@@ -122,7 +131,18 @@ def install_intruder(sim, spec, res):
     def transmit(src, frame):
         orig(src, frame)
         state['n'] += 1
-        if state['n'] == spec['after'] and state['done'] < 1:
+        if state['n'] == spec['after'] and state['done'] < 1 and spec.get('mode') == 'second-ca':
+            state['done'] += 1
+
+            def second():
+                try:
+                    r = mc2.read(S_ADDR, 1, 0x11223344, 1, 1, False, True, 1)
+                    res.second.append(('ok', list(r) if r is not None else None))
+                except Exception as ex:
+                    res.second.append(('exc', type(ex).__name__, str(ex)))
+            sim.trace.append((sim.now, 9, 'intruder', 0, ()))
+            sim.at_thread(sim.now + 60, second, 'client2')
+        elif state['n'] == spec['after'] and state['done'] < 1:
             state['done'] += 1
             for k in range(spec.get('times', 1)):
                 sa = spec['sa']
